@@ -30,3 +30,45 @@ package tcp
 //@
 //@ func (*listener).Listen$1
 //@   loop 1 ensures !called_since("loop1:head", "Handshake") && !called_since("loop1:head", "handshake") && !called_since("loop1:head", "Read") && !called_since("loop1:head", "ReadFull") && !called_since("loop1:head", "Wait")
+// ---- generated transport option contracts (tools/gen_transport_option_contracts.py) ----
+//@ func (*dialer).SetOption
+//@   ensures n != mangos.OptionMaxRecvSize && n != mangos.OptionKeepAliveTime && n != mangos.OptionKeepAlive && n != mangos.OptionNoDelay ==> result == mangos.ErrBadOption
+//@   ensures !isnil(result) ==> result == mangos.ErrBadOption || result == mangos.ErrBadValue
+//@   ensures n == mangos.OptionMaxRecvSize ==> (isnil(result) <==> is_int(v))
+//@   ensures n == mangos.OptionMaxRecvSize && isnil(result) ==> d.maxRecvSize == int_of(v)
+//@   ensures n == mangos.OptionKeepAliveTime ==> (isnil(result) <==> is_duration(v))
+//@   ensures n == mangos.OptionKeepAliveTime && isnil(result) ==> d.d.KeepAlive == int_of(v)
+//@   ensures n == mangos.OptionKeepAlive ==> (isnil(result) <==> is_bool(v))
+//@   ensures n == mangos.OptionKeepAlive && isnil(result) ==> (bool_of(v) <==> d.d.KeepAlive >= 0)
+//@   ensures n == mangos.OptionNoDelay ==> (isnil(result) <==> is_bool(v))
+//@   ensures !isnil(result) || n == mangos.OptionNoDelay ==> unchanged("call:Lock#1", d.maxRecvSize, d.d.KeepAlive)
+//@   ensures n != mangos.OptionMaxRecvSize ==> unchanged("call:Lock#1", d.maxRecvSize)
+//@
+//@ func (*dialer).GetOption
+//@   ensures n != mangos.OptionMaxRecvSize && n != mangos.OptionKeepAliveTime && n != mangos.OptionKeepAlive && n != mangos.OptionNoDelay ==> result1 == mangos.ErrBadOption && isnil(result0)
+//@   ensures n == mangos.OptionMaxRecvSize ==> isnil(result1) && result0 == iface(d.maxRecvSize)
+//@   ensures n == mangos.OptionKeepAliveTime ==> isnil(result1) && is_duration(result0) && int_of(result0) == d.d.KeepAlive
+//@   ensures n == mangos.OptionKeepAlive ==> isnil(result1) && result0 == iface(d.d.KeepAlive >= 0)
+//@   ensures n == mangos.OptionNoDelay ==> isnil(result1) && result0 == iface(true)
+//@
+//@ func (*listener).SetOption
+//@   ensures n != mangos.OptionMaxRecvSize && n != mangos.OptionKeepAliveTime && n != mangos.OptionKeepAlive && n != mangos.OptionNoDelay ==> result == mangos.ErrBadOption
+//@   ensures !isnil(result) ==> result == mangos.ErrBadOption || result == mangos.ErrBadValue
+//@   ensures n == mangos.OptionMaxRecvSize ==> (isnil(result) <==> is_int(v))
+//@   ensures n == mangos.OptionMaxRecvSize && isnil(result) ==> l.maxRecvSize == int_of(v)
+//@   ensures n == mangos.OptionKeepAliveTime ==> (isnil(result) <==> is_duration(v))
+//@   ensures n == mangos.OptionKeepAliveTime && isnil(result) ==> l.lc.KeepAlive == int_of(v)
+//@   ensures n == mangos.OptionKeepAlive ==> (isnil(result) <==> is_bool(v))
+//@   ensures n == mangos.OptionKeepAlive && isnil(result) ==> (bool_of(v) <==> l.lc.KeepAlive >= 0)
+//@   ensures n == mangos.OptionNoDelay ==> (isnil(result) <==> is_bool(v))
+//@   ensures !isnil(result) || n == mangos.OptionNoDelay ==> unchanged("call:Lock#1", l.maxRecvSize, l.lc.KeepAlive)
+//@   ensures n != mangos.OptionMaxRecvSize ==> unchanged("call:Lock#1", l.maxRecvSize)
+//@
+//@ func (*listener).GetOption
+//@   ensures n != mangos.OptionMaxRecvSize && n != mangos.OptionKeepAliveTime && n != mangos.OptionKeepAlive && n != mangos.OptionNoDelay ==> result1 == mangos.ErrBadOption && isnil(result0)
+//@   ensures n == mangos.OptionMaxRecvSize ==> isnil(result1) && result0 == iface(l.maxRecvSize)
+//@   ensures n == mangos.OptionKeepAliveTime ==> isnil(result1) && is_duration(result0) && int_of(result0) == l.lc.KeepAlive
+//@   ensures n == mangos.OptionKeepAlive ==> isnil(result1) && result0 == iface(l.lc.KeepAlive >= 0)
+//@   ensures n == mangos.OptionNoDelay ==> isnil(result1) && result0 == iface(true)
+//@
+// ---- end generated transport option contracts ----
